@@ -8,7 +8,7 @@ CONSTANTS
   Vals = {1, 2}
   Acts = {"CreateGroup", "CreateObject", "AddData", "Rename", "SetFlag", "SetVal", "Move", "AddToGroup", "RemoveFromGroup", "RemovePG", "RemoveViaWorkspace", "RemoveViaParent", "DropRef", "Collect", "Purge", "LookupDead", "Copy", "Close", "Open", "MoveSame", "AddDataFails", "SaveAs", "CreateDeferred", "SetMeta"}
   Deviations = {"CloseKeepsOrphans"}
-  MaxDepth = 6
+  MaxDepth = 5
 CONSTRAINT DepthBound
 VIEW vw
 INVARIANT TypeOK
